@@ -214,7 +214,7 @@ pub fn c07_many_tokens(mid_len: u32) -> EnumOutcome {
     let t0 = Instant::now();
     let nmid = count_strings(C07_SIGMA.len() as u64, mid_len);
     let ks = [127usize, 128, 254, 255, 256, 257, 300];
-    let total = ks.len() as u64 * nmid * 2;
+    let total = ks.len() as u64 * nmid * 6;
     let mut out = (0..ks.len())
         .into_par_iter()
         .map(|ki| {
@@ -223,8 +223,11 @@ pub fn c07_many_tokens(mid_len: u32) -> EnumOutcome {
             let kk = ks[ki];
             for mi in 0..nmid {
                 nth_string(&C07_SIGMA, mi, &mut mid);
-                for tail in [0usize, 3] {
-                    let mut line = "a ".repeat(kk);
+                // units that are dropped / rewritten in place differently: plain separators, double blanks (one
+                // byte dropped per token), quoted tokens (two), escapes (three), and a long run of leading blanks
+                for (tail, unit, lead) in [(0usize, "a ", 0usize), (3, "a ", 0), (1, "a  ", 0), (1, "\"a\" ", 0), (1, "\"\\\"\" ", 0), (1, "é ", kk)] {
+                    let mut line = " ".repeat(lead);
+                    line.push_str(&unit.repeat(kk));
                     line.push_str(&mid);
                     line.push_str(&" é".repeat(tail));
                     o.evaluations += 1;
@@ -246,7 +249,7 @@ pub fn c07_many_tokens(mid_len: u32) -> EnumOutcome {
             a.merge(b);
             a
         });
-    out.name = format!("tokeniser, many tokens: (a )^k . every string of <= {} symbols . ( é)^0|3 for k in {:?}", mid_len, ks);
+    out.name = format!("tokeniser, many tokens: unit^k . every string of <= {} symbols . tail, unit in (a | a+2 blanks | quoted a | quoted escaped quote | k leading blanks + é), k in {:?}", mid_len, ks);
     out.rule = "lines of 127..300 tokens followed by every short string over the C07 alphabet".into();
     out.expected = Some(total);
     out.exhaustive = out.evaluations == total;
